@@ -469,10 +469,11 @@ static void overlap_case(vrng *r)
 
 /* well-formed sequences derived from trees */
 static const vbuf *EMIT_ENC;     /* the independent encoding of the tree being emitted (spans valid) */
+static bool EMIT_RAW_OK = true;  /* off for nesting ladders: every container of the chain is opened and closed by its own calls */
 static void emit(binson_writer *w, const vnode *n, vrng *r, uint64_t *calls)
 {
     (*calls)++;
-    if ((n->kind == K_OBJ || n->kind == K_ARR) && n->parent && EMIT_ENC && vrn(r, 12) == 0) {
+    if ((n->kind == K_OBJ || n->kind == K_ARR) && n->parent && EMIT_ENC && EMIT_RAW_OK && vrn(r, 12) == 0) {
         /* a pre-encoded sub-document handed over with binson_write_raw */
         binson_write_raw(w, EMIT_ENC->p + n->off, n->len);
         vw_count("raw_embedded_containers", 1);
@@ -496,7 +497,12 @@ static void emit(binson_writer *w, const vnode *n, vrng *r, uint64_t *calls)
         binson_write_object_begin(w);
         for (uint32_t i = 0; i < n->nkids; i++) {
             const vnode *k = n->kids[i];
-            if (!memchr(k->name, 0, k->name_len) && vrn(r, 2)) binson_write_name(w, (const char *)k->name);
+            if (!memchr(k->name, 0, k->name_len) && vrn(r, 2)) {
+                /* the argument is an expression with a side effect, as in write_name(w, *p++): it is evaluated once */
+                const char *nmv[4] = { (const char *)k->name, "\x01not-this-1", "\x01not-this-2", "\x01not-this-3" }; size_t ni = 0;
+                binson_write_name(w, nmv[ni++]);
+                if (ni != 1) vw_violation("c05:argument-evaluated-more-than-once", "binson_write_name(w, v[i++]) evaluated its name argument %zu times", ni);
+            }
             else binson_write_name_with_len(w, (const char *)k->name, k->name_len);
             emit(w, k, r, calls);
         }
@@ -522,7 +528,11 @@ static void tree_case(vrng *r)
     g.max_nodes = 2 + (int)vrn(r, vrn(r, 5) ? 30 : 300);
     g.big_permille = 60; g.huge_permille = vrn(r, 20) ? 0 : 30;
     if (vrn(r, 3) == 0) { g.max_obj_depth = 10; g.container_permille = 600; g.max_arr_depth = 6; }
-    vnode *t = vrn(r, 40) == 0 ? vt_ladder(r, root, 1 + (int)vrn(r, 10), 1 + (int)vrn(r, 255)) : vt_gen(r, &g);
+    /* ladders: few object levels with long array runs, or 100..255 object levels each holding arrays (hundreds of containers open at once) */
+    bool ladder = vrn(r, 25) == 0;
+    EMIT_RAW_OK = !ladder;
+    if (ladder) vw_count("nesting_ladders_written", 1);
+    vnode *t = ladder ? vt_ladder(r, root, vrn(r, 2) ? 1 + (int)vrn(r, 10) : 100 + (int)vrn(r, 156), 1 + (int)vrn(r, 255)) : vt_gen(r, &g);
     /* the tree generator NUL-terminates arena copies of names and payloads */
     vbuf e; memset(&e, 0, sizeof e);
     vt_encode(t, &e);
